@@ -55,6 +55,11 @@ def make_recording():
             def destinations(self):
                 return Proxy(base.destinations.fget(self), self.log, "destinations")
 
+            def __len__(self):
+                # a user-defined engine may keep a table (of the variables it created, say) and report its length:
+                # an engine whose table is empty is "falsy" - and still the engine that was passed
+                return 0
+
             def var(self, *a, **k):
                 self.log.append("var")
                 return super().var(*a, **k)
@@ -102,7 +107,7 @@ def run_C13(ctx):
     distinct = set()
     try:
         # ---------------- selection histories vs the model ----------------
-        bad_names = ["foo", "", "num", "py", "casa", " numpy", "casadi, numpy", "NumPy", "casadi "]
+        bad_names = ["foo", "", "num", "py", "casa", " numpy", "casadi, numpy", "NumPy", "casadi ", "np"]
         hist = []
         for _ in range(60 if quick else 600):
             h = []
@@ -116,6 +121,10 @@ def run_C13(ctx):
                     h.append(("bad", rng.choice(bad_names)))
                 elif r < 0.75:
                     h.append(("other", rng.choice(["object", "none", "int"])))
+                elif r < 0.82:
+                    # the caller edits the listing it was handed (adds a private alias, drops an entry it does not
+                    # want to display): its own copy - what can be selected does not change
+                    h.append(("listing", rng.choice(["alias", "pop"])))
                 elif r < 0.9:
                     h.append(("get",))
                 else:
@@ -132,7 +141,7 @@ def run_C13(ctx):
                     return f'UseInstance {{| e_class := "{op[1]}"; e_id := {op[2]} |}}'
                 if op[0] == "other":
                     return "UseOther"
-                if op[0] == "get":
+                if op[0] in ("get", "listing"):
                     return "Get"
                 if op[1] is None:
                     return "Step None"
@@ -170,6 +179,9 @@ def run_C13(ctx):
                         obs.append("engine %s %d" % ids[id(e)])
                         if engines.get_current_engine() is not e:
                             out["failures"].append({"key": "C13:use-not-current", "history": h, "what": f"use({op[1]!r}) returned an engine that is not the current one"})
+                        if op[0] == "bad":
+                            out["failures"].append({"key": "C13:unknown-accepted", "history": h,
+                                                    "what": f"use({op[1]!r}) - not the name of an available engine - was accepted and selected a {type(e).__name__}"})
                     elif op[0] == "inst":
                         key = (op[1], op[2])
                         if key not in insts:
@@ -182,6 +194,13 @@ def run_C13(ctx):
                     elif op[0] == "other":
                         engines.use({"object": object(), "none": None, "int": 42}[op[1]])
                         obs.append("engine ? ?")
+                    elif op[0] == "listing":
+                        d_ = engines.get_available_engines()
+                        if op[1] == "alias":
+                            d_["np"] = dict(d_.get("numpy", {}))
+                        else:
+                            d_.pop("casadi", None)
+                        obs.append("engine %s %d" % ids[id(engines.get_current_engine())])
                     elif op[0] == "get":
                         obs.append("engine %s %d" % ids[id(engines.get_current_engine())])
                     elif op[0] == "step":
@@ -204,6 +223,9 @@ def run_C13(ctx):
                             out["failures"].append({"key": "C13:step-writes-selection", "history": h, "what": "a step changed the selected engine"})
                 except EngineNotFoundError as exn:
                     obs.append("notfound")
+                    if op[0] == "name":
+                        out["failures"].append({"key": "C13:known-refused", "history": h,
+                                                "what": f"use({op[1]!r}) - the name of an available engine - was refused: {exn!s:.120}"})
                     if op[0] == "inst":
                         out["failures"].append({"key": "C13:instance-refused", "history": h,
                                                 "what": f"use(<instance of a {op[1]} engine subclass>) was refused: {exn!s:.120}"})
